@@ -94,3 +94,18 @@ Theorem C19_source_next : forall (sym : string -> Z), sym "nil" = (-1)%Z -> fora
 Proof. exact src_rr_next_is_next. Qed.
 Print Assumptions C19_source_next.
 
+
+(* ---- commonBalancer.AddTarget itself, from its statement-level translation (Gen/Src_addtarget.v, re-translated from
+   middleware/proxy.go on every run): for every target list and new target, refused exactly when one of that NAME is there -
+   whatever its URL -, otherwise appended at the end and nothing else changed: the model's [add] *)
+From Coq Require Import ZArith String.
+From Echo Require Import Base.Sx Base.GoLoop Gen.Src_addtarget Mw.AddTargetSrc.
+Theorem C19_source_add_target : forall (l : list (str * Z)) (t : str * Z),
+  let st := {| GoLoop.locals := [("target"%string, tv t); ("t"%string, VZ 0%Z)]; GoLoop.fields := [("b.targets"%string, VL (map tv l))];
+               GoLoop.lists := [("b.targets"%string, map tv l)]; GoLoop.events := []; GoLoop.inputs := [] |} in
+  let '(st', ret) := GoLoop.run tsym tpred src_add_target_results src_add_target st in
+  if existsb (same_name t) l
+  then ret = [VZ 0%Z] /\ GoLoop.get (GoLoop.fields st') "b.targets" = VL (map tv l)
+  else ret = [VZ 1%Z] /\ GoLoop.get (GoLoop.fields st') "b.targets" = VL (map tv (l ++ [t])).
+Proof. exact AddTargetSrc.C19_source_add_target. Qed.
+Print Assumptions C19_source_add_target.
